@@ -12,7 +12,9 @@ import (
 	"sync"
 
 	"github.com/llir/llvm/ir"
+
 	"github.com/llir/llvm/ir/value"
+	"verif/harness/mbt"
 )
 
 // scenario describes one child run: one module source, one start state, one
@@ -30,6 +32,12 @@ type scenario struct {
 	// Traced rounds: hook events of the first TraceRounds rounds are kept.
 	TraceRounds int    `json:"trace_rounds"`
 	Out         string `json:"out"`
+	// FreshWrites is filled in by the parent from the child's result: the number of SetID calls a
+	// sequential print of a fresh copy performs (0 = every ID already has its final value)
+	FreshWrites int  `json:"fresh_writes"`
+	FreshKnown  bool `json:"fresh_known"`
+	// Texts: corpus mode -- path of a JSON list of module texts printed concurrently (see rich.go)
+	Texts string `json:"texts,omitempty"`
 }
 
 // traceRow is one row of printconc_trace.ndjson (see spec/PrintConcTrace.tla).
@@ -41,17 +49,21 @@ type traceRow struct {
 }
 
 type mismatch struct {
-	Entry string `json:"entry"` // module | func | block | ident
-	Want  string `json:"want"`
-	Got   string `json:"got"`
+	Entry  string `json:"entry"` // module | func | block | ident
+	Module string `json:"module,omitempty"`
+	Want   string `json:"want"`
+	Got    string `json:"got"`
 }
 
 type childResult struct {
-	Calls      int        `json:"calls"`
-	Mismatches []mismatch `json:"mismatches"`
-	Panics     []string   `json:"panics"`
-	Rows       []traceRow `json:"rows"`
-	SetIDs     int        `json:"setids"`
+	FreshWrites int        `json:"fresh_writes"`      // SetID calls of a sequential print of a fresh copy
+	Skipped     int        `json:"skipped,omitempty"` // corpus mode: texts the library does not parse / print sequentially
+	Modules     int        `json:"modules,omitempty"`
+	Calls       int        `json:"calls"`
+	Mismatches  []mismatch `json:"mismatches"`
+	Panics      []string   `json:"panics"`
+	Rows        []traceRow `json:"rows"`
+	SetIDs      int        `json:"setids"`
 }
 
 // --- entry points -------------------------------------------------------------
@@ -201,9 +213,15 @@ func goid() uint64 {
 	return id
 }
 
+// countSetIDs, when non-nil, counts setid events (sequential phases only).
+var countSetIDs *int
+
 func hook(ev string, obj interface{}, old, new int64) {
 	h := hs
 	if h == nil {
+		if c := countSetIDs; c != nil && ev == "setid" {
+			*c++
+		}
 		return
 	}
 	b := h.bufs[goid()]
@@ -247,6 +265,9 @@ func childMain(path string) {
 		fmt.Println("child: bad scenario file")
 		os.Exit(3)
 	}
+	if sc.Texts != "" {
+		childCorpus(sc)
+	}
 	var src *modSource
 	for _, s := range sources(sc.Tier) {
 		if s.Name == sc.Source {
@@ -273,7 +294,17 @@ func childMain(path string) {
 		}
 		ref[e] = call(e, m)
 	}
-	numbered := src.Parsed || sc.Start == "already-printed"
+	// does a fresh copy still need IDs? (constructed modules do; parsed modules usually do not, but the
+	// parser leaves the unnamed parameters of declarations unnumbered)
+	{
+		fm := src.Build()
+		cnt := 0
+		countSetIDs = &cnt
+		mbt.Guard(func() { _ = fm.String() })
+		countSetIDs = nil
+		res.FreshWrites = cnt
+	}
+	numbered := res.FreshWrites == 0 || sc.Start == "already-printed"
 	var mu sync.Mutex // guards res.Mismatches / res.Panics only, after the printing calls
 	for r := 0; r < sc.Rounds; r++ {
 		m := src.Build()
